@@ -336,6 +336,40 @@ func DelegatedReturns(fn *ssa.Function) []*ssa.Return {
 	return out
 }
 
+// Resolve follows a value to where it is computed across the helpers of its package: a parameter of a helper with one
+// call site is the argument passed there, the result of a same-package helper is what its only return yields (a
+// helper with several different returned values stops the walk). Four steps at most.
+func Resolve(v ssa.Value) ssa.Value {
+	for d := 0; d < 4 && v != nil; d++ {
+		v = Strip(v)
+		if pr, isP := v.(*ssa.Parameter); isP {
+			site := SoleCallSite(pr.Parent())
+			if site == nil {
+				return v
+			}
+			next := ssa.Value(nil)
+			for i, q := range pr.Parent().Params {
+				if a := ArgOfParam(site, pr.Parent(), i); q == pr && a != nil {
+					next = a
+				}
+			}
+			if next == nil {
+				return v
+			}
+			v = next
+			continue
+		}
+		if cl, _ := CallOfValue(v); cl != nil && cl.Parent() != nil && cl.Call.StaticCallee() != nil && len(cl.Call.StaticCallee().Blocks) > 0 && PkgOf(cl.Call.StaticCallee()) == PkgOf(cl.Parent()) {
+			if ts := throughReturns1(v); len(ts) == 1 && ts[0] != v {
+				v = ts[0]
+				continue
+			}
+		}
+		return v
+	}
+	return v
+}
+
 var boundSitesMemo = map[*ssa.Function][]ssa.Instruction{}
 var boundUsedMemo = map[*ssa.Function]bool{}
 
